@@ -168,11 +168,25 @@ Proof.
   injection H as <-. simpl. auto.
 Qed.
 
-Lemma materialize_inv : forall d, inv d -> inv (materialize d) /\ materialized (materialize d) = true.
+Lemma materialize_some : forall d d', materialize d = Some d' ->
+  (materialized d = true /\ d' = d) \/
+  (materialized d = false /\
+   d' = mkDs (df d) (df_cols d) (stype_cols d) (target_col d) (split_col d) true (Some (map rid (df d)))).
 Proof.
-  intros d Hi. unfold materialize. destruct (materialized d) eqn:Hm; auto.
+  intros d d' H. unfold materialize in H. destruct (materialized d); [left|right].
+  - injection H as <-. auto.
+  - match type of H with (if ?a then _ else _) = _ => destruct a; try discriminate end.
+    injection H as <-. auto.
+Qed.
+
+Lemma materialize_inv : forall d d', materialize d = Some d' -> inv d -> inv d' /\ materialized d' = true.
+Proof.
+  intros d d' H Hi. destruct (materialize_some _ _ H) as [[Hm ->]|[Hm ->]]; auto.
   split; [|reflexivity]. intros _. unfold aligned. reflexivity.
 Qed.
+
+Lemma materialize_materialized : forall d, materialized d = true -> materialize d = Some d.
+Proof. intros d H. unfold materialize. rewrite H. reflexivity. Qed.
 
 Lemma get_split_is_select : forall d name d',
   get_split d name = Some d' -> exists i, index_select d i = Some d'.
@@ -186,7 +200,7 @@ Proof.
 Qed.
 
 Lemma step_cases : forall d o d', step d o = Some d' ->
-  (exists i, index_select d i = Some d') \/ (exists cols, col_select d cols = Some d') \/ d' = materialize d.
+  (exists i, index_select d i = Some d') \/ (exists cols, col_select d cols = Some d') \/ materialize d = Some d'.
 Proof.
   intros d o d' H. destruct o; simpl in H.
   - destruct k as [c|cs|i]; simpl in H.
@@ -198,25 +212,25 @@ Proof.
     injection H as <-. left; eauto.
   - left. eapply get_split_is_select; eauto.
   - right; left; eauto.
-  - right; right. injection H as <-. reflexivity.
+  - right; right. exact H.
 Qed.
 
 Lemma step_inv : forall d o d', inv d -> step d o = Some d' -> inv d'.
 Proof.
-  intros d o d' Hi H. destruct (step_cases _ _ _ H) as [[i Hs]|[[cols Hc]| ->]].
+  intros d o d' Hi H. destruct (step_cases _ _ _ H) as [[i Hs]|[[cols Hc]|Hmat]].
   - intros _. apply (index_select_frame _ _ _ Hi Hs).
   - destruct (col_select_pre _ _ _ Hc) as [_ [Hm' _]]. intros Hm. congruence.
-  - apply materialize_inv; auto.
+  - eapply materialize_inv; eauto.
 Qed.
 
 Lemma step_materialized : forall d o d', inv d -> materialized d = true -> step d o = Some d' ->
   materialized d' = true /\ df_cols d' = df_cols d /\ stype_cols d' = stype_cols d /\
   target_col d' = target_col d /\ split_col d' = split_col d.
 Proof.
-  intros d o d' Hi Hm H. destruct (step_cases _ _ _ H) as [[i Hs]|[[cols Hc]| ->]].
+  intros d o d' Hi Hm H. destruct (step_cases _ _ _ H) as [[i Hs]|[[cols Hc]|Hmat]].
   - destruct (index_select_frame _ _ _ Hi Hs) as [? [? ?]]; auto.
   - destruct (col_select_pre _ _ _ Hc) as [Hm' _]. congruence.
-  - unfold materialize. rewrite Hm. auto.
+  - rewrite materialize_materialized in Hmat by auto. injection Hmat as <-. auto.
 Qed.
 
 Lemma run_fold_none : forall ops, fold_left (fun acc o => d' <- acc ;; step d' o) ops None = None.
@@ -361,6 +375,7 @@ Proof.
     rewrite map_map. cbn [relabel_row split]. apply index_select_relabel.
   - apply col_select_relabel.
   - unfold materialize. simpl. destruct (materialized d); simpl; auto.
+    match goal with |- (if ?a then _ else _) = _ => destruct a; simpl; auto end.
     unfold relabel. simpl. rewrite map_map. reflexivity.
 Qed.
 
@@ -403,7 +418,7 @@ Proof. intros d cols H. unfold col_select, requires_pre_materialization. rewrite
 
 Lemma col_select_keeps : forall d cols d',
   col_select d cols = Some d' ->
-  df d' = df d /\ target_col d' = target_col d /\ df_cols d' = stype_cols d' /\
+  df d' = df d /\ target_col d' = target_col d /\
   (forall c, In c cols -> In c (df_cols d')) /\
   (forall c, In c (df_cols d') -> In c (df_cols d) /\ In c (stype_cols d)) /\
   (forall t, target_col d = Some t -> In t (df_cols d')) /\
@@ -441,11 +456,11 @@ Proof. induction l; destruct k; simpl; auto. Qed.
 Lemma Forall2_refl' : forall {A} (R : A -> A -> Prop) l, (forall x, R x x) -> Forall2 R l l.
 Proof. induction l; constructor; auto. Qed.
 
-Lemma set_nth_Forall2 : forall (store : list (option ds)) p d,
-  nth_error store p = Some (Some d) ->
-  Forall2 same_or_materialized store (set_nth store p (Some (materialize d))).
+Lemma set_nth_Forall2 : forall (store : list (option ds)) p d d',
+  nth_error store p = Some (Some d) -> materialize d = Some d' ->
+  Forall2 same_or_materialized store (set_nth store p (Some d')).
 Proof.
-  induction store as [|e store IH]; intros p d H; destruct p; simpl in *; try discriminate.
+  induction store as [|e store IH]; intros p d d' H Hmat; destruct p; simpl in *; try discriminate.
   - injection H as ->. constructor.
     + right. eauto.
     + apply Forall2_refl'. intros; left; reflexivity.
@@ -500,11 +515,12 @@ Proof.
       by (destruct o; ((left; reflexivity) || (right; discriminate))).
     destruct Ho as [->|Ho].
     + simpl. destruct (lookup store p) as [d|] eqn:E; simpl; auto.
+      destruct (materialize d) as [d'|] eqn:Em; simpl; auto.
       split; [|split].
-      * apply set_nth_Forall; auto. simpl. apply materialize_inv. eapply lookup_inv; eauto.
+      * apply set_nth_Forall; auto. simpl. eapply materialize_inv; eauto. eapply lookup_inv; eauto.
       * rewrite set_nth_length. lia.
-      * rewrite <- (set_nth_length store p (Some (materialize d))) at 1. rewrite firstn_all.
-        apply set_nth_Forall2. apply lookup_some; auto.
+      * rewrite <- (set_nth_length store p (Some d')) at 1. rewrite firstn_all.
+        eapply set_nth_Forall2; eauto. apply lookup_some; auto.
     + rewrite (tree_step_op store p o Ho). apply Hstep; auto.
   - simpl. split; auto.
   - simpl. split; auto.
@@ -513,14 +529,14 @@ Qed.
 Lemma same_or_materialized_trans : forall a b c,
   same_or_materialized a b -> same_or_materialized b c -> same_or_materialized a c.
 Proof.
-  intros a b c [->|[d [-> ->]]] [->|[d' [E ->]]].
+  intros a b c [->|[d [d1 [-> [M1 ->]]]]] [->|[d' [d2 [E [M2 ->]]]]].
   - left; reflexivity.
   - right; eauto.
   - right; eauto.
-  - injection E as <-. right. exists d. split; auto. f_equal.
-    unfold materialize at 1. simpl.
-    assert (materialized (materialize d) = true) by (unfold materialize; destruct (materialized d) eqn:X; auto).
-    rewrite H. reflexivity.
+  - injection E as <-. right. exists d, d2. split; auto. split; auto.
+    assert (Hm : materialized d1 = true).
+    { destruct (materialize_some _ _ M1) as [[Hm ->]|[_ ->]]; auto. }
+    rewrite materialize_materialized in M2 by auto. injection M2 as <-. exact M1.
 Qed.
 
 Lemma Forall2_trans' : forall {A} (R : A -> A -> Prop) l1 l2 l3,
@@ -581,10 +597,32 @@ Proof.
   destruct (run_materialized ops d0 d (fun _ => Ha) Hm H) as [? [? _]]. auto.
 Qed.
 
-Lemma materialize_aligned_proof : forall d, materialized d = false -> 
-  materialized (materialize d) = true /\ aligned (materialize d) /\ df (materialize d) = df d.
-Proof. intros d H. unfold materialize, aligned. rewrite H. simpl. auto. Qed.
+Lemma materialize_aligned_proof : forall d d', materialized d = false -> materialize d = Some d' ->
+  materialized d' = true /\ aligned d' /\ df d' = df d /\
+  df_cols d' = df_cols d /\ stype_cols d' = stype_cols d.
+Proof.
+  intros d d' H Hm. destruct (materialize_some _ _ Hm) as [[Hm' _]|[_ ->]]; [congruence|].
+  unfold aligned. simpl. auto.
+Qed.
 
+(* every column of col_to_stype names exactly one column of the frame *)
+Definition columns_unique (d : ds) : Prop :=
+  forall c, In c (stype_cols d) -> count_str c (df_cols d) = 1.
+
+Lemma materialize_defined_proof : forall d, columns_unique d -> exists d', materialize d = Some d'.
+Proof.
+  intros d H. unfold materialize. destruct (materialized d); eauto.
+  replace (forallb (fun c => Nat.eqb (count_str c (df_cols d)) 1) (stype_cols d)) with true; eauto.
+  symmetry. apply forallb_forall. intros c Hc. apply Nat.eqb_eq. apply H. exact Hc.
+Qed.
+
+Lemma dedup_In : forall c l, In c (dedup_str l) <-> In c l.
+Proof.
+  intros c l. induction l as [|x l IH]; simpl; [tauto|].
+  rewrite filter_In, IH. destruct (String.eqb c x) eqn:E.
+  - apply String.eqb_eq in E. subst. tauto.
+  - split; [tauto|]. intros [->|H]; [rewrite String.eqb_refl in E; discriminate|]. right. split; auto.
+Qed.
 
 Lemma split_names_table : forall name k, In (name, k) split_names ->
   In name ["train"; "val"; "test"]%string /\ assoc_str name split_to_num = Some k.
@@ -659,7 +697,7 @@ Proof.
 Qed.
 
 Lemma tensor_frame_after_proof : forall d, materialized d = true -> aligned d ->
-  tensor_frame d = Some (map rid (df d)) /\ col_stats d = Some (stype_cols d).
+  tensor_frame d = Some (map rid (df d)) /\ col_stats d = Some tt.
 Proof.
   intros d Hm Ha. unfold tensor_frame, col_stats, requires_post_materialization. rewrite Hm. auto.
 Qed.
@@ -683,3 +721,14 @@ Proof. intros prog store H. destruct (tree_run_facts prog store H) as [? [_ ?]].
 
 Lemma fresh_inv_proof : forall rows dfc sc t s, inv (fresh rows dfc sc t s).
 Proof. intros. unfold inv, fresh. simpl. discriminate. Qed.
+
+(* col_to_stype of the result has the same names as its frame (each once) *)
+Lemma col_select_stype_keys_proof : forall d cols d', col_select d cols = Some d' ->
+  forall c, In c (stype_cols d') <-> In c (df_cols d').
+Proof.
+  intros d cols d' H c. unfold col_select, requires_pre_materialization in H.
+  destruct (materialized d); try discriminate.
+  match type of H with (if ?a then _ else _) = _ => destruct a; try discriminate end.
+  match type of H with (if ?a then _ else _) = _ => destruct a; try discriminate end.
+  injection H as <-. simpl. apply dedup_In.
+Qed.
